@@ -767,7 +767,7 @@ IDENTS_SET = IDENTS + ["1a", "a-b", "a b", "", "x" * 256, "B", "AB"]
 KEYS = [".NAME", "EDIF.identifier", "K", "user.k", ".NS"]
 
 
-def op_strategy(weights, names=NAMES, keys=KEYS, own_bias=3):
+def op_strategy(weights, names=NAMES, keys=KEYS, own_bias=3, odd_positions=False):
     """weights: dict op name -> int weight (missing = 1 for STRUCT_OPS, 0 for others)"""
     table = []
     for n in sorted(set(STRUCT_OPS) | set(weights)):
@@ -779,7 +779,10 @@ def op_strategy(weights, names=NAMES, keys=KEYS, own_bias=3):
         "t": small, "a": small, "b": small,
         "own": st.integers(0, own_bias).map(lambda v: v != 0),
         "k": st.integers(0, 3),
-        "pos": st.one_of(st.none(), st.integers(-1, 4)),
+        # odd_positions: now and then a position of the wrong type (the insert then raises TypeError
+        # half-way through the call)
+        "pos": st.one_of(st.none(), st.integers(-1, 4)) if not odd_positions else st.one_of(
+            st.none(), st.integers(-1, 4), st.integers(-1, 4), st.sampled_from([1.5, "0"])),
         "s": st.one_of(st.none(), st.sampled_from(names)),
         "perm": st.lists(st.integers(0, 5), min_size=1, max_size=4),
         "mode": st.integers(0, 11),
@@ -789,6 +792,6 @@ def op_strategy(weights, names=NAMES, keys=KEYS, own_bias=3):
     })
 
 
-def histories(weights, max_len, names=NAMES, keys=KEYS, own_bias=3, min_len=1):
-    op = op_strategy(weights, names, keys, own_bias)
+def histories(weights, max_len, names=NAMES, keys=KEYS, own_bias=3, min_len=1, odd_positions=False):
+    op = op_strategy(weights, names, keys, own_bias, odd_positions)
     return st.integers(min_len, max_len).flatmap(lambda n: st.lists(op, min_size=n, max_size=n))
